@@ -1,10 +1,447 @@
 import PgFdr.Proofs.C12
+import PgFdr.Proofs.C17
+import Mathlib.Data.Finset.Card
+import Mathlib.Data.List.Dedup
+import Mathlib.Data.Finset.Dedup
 
+/-!
+# C12 — intensity, iBAQ, count, ID-type columns equal recomputation from precursors
+
+Property text (properties.jsonl): "Each quantified evidence row is attached to exactly the one
+reported protein group containing all of its proteins (rows mapping to several groups or to none
+are left out), and a precursor is used only if some PSM of the same peptide and charge in that
+group passes the PSM-level PEP cutoff (match-between-runs rows ride along with identified
+precursors). Per group and experiment the summed intensity, iBAQ (intensity divided by the leading
+protein's theoretical peptide number, at least 1), unique-peptide counts, identification type and
+evidence IDs equal a direct recomputation from those precursors, the total intensity is the sum
+over experiments, and over all groups no evidence row is counted twice."
+
+Only property theorems live here.  The executable model (`quantify`, `quantifyWith` and the loop
+functions they are composed of) is `PgFdr/Model/C12.lean`; it is what the driver op `quant` runs and
+what `harness/props/C12.py` compares with `quant/maxquant.py:add_precursor_quants`,
+`writers/base.py:append_quant_columns` and the column classes.  Helper lemmas and the auxiliary
+predicates `counted`, `chan`, `hit`, `identifiedIn`, `entersGroup`, `rowCounted` are in
+`PgFdr/Proofs/C12.lean`.  `c` is the PEP cutoff (`cutoffOf` = `C17.cutoff` of the PEP list in the
+composed run); the per-column theorems hold for every `c`.
+-/
 namespace PgFdr.C12
+open PgFdr.C17 (PepVal)
 
-/-- placeholder while the correspondence is brought up -/
-theorem retain_sub (c : Rat) (quants : List Row) : ∀ q ∈ retain c quants, q ∈ quants := by
-  intro q hq
-  exact (List.mem_filter.mp hq).1
+/-! ## the composed run is made of the functions the theorems below are about -/
+
+/-- the run succeeds exactly when `get_silac_channels` accepts the number of SILAC columns, and
+    then it is `quantifyWith` for that number of channels -/
+theorem quantify_ok (rows : List Row) (groups : List (List String)) (level : Rat)
+    (ibaq : List (String × Nat)) (o : Output) :
+    quantify rows groups level ibaq = .ok o ↔
+      ∃ S, silacChannels (nSilac rows) = .ok S ∧ o = quantifyWith S rows groups level ibaq := by
+  unfold quantify
+  cases silacChannels (nSilac rows) with
+  | error e => simp
+  | ok S =>
+    simp only [Except.ok.injEq, exists_eq_left']
+    exact eq_comm
+
+/-- the reported rows after quantification are the groups with at least one attached precursor, in
+    the reported order; the precursor list of each is the identified-precursor filter of its attached
+    rows, and every column is the corresponding loop function applied to that list with the run's
+    experiment list and PEP cutoff -/
+theorem output_groups (S : Nat) (rows : List Row) (groups : List (List String)) (level : Rat)
+    (ibaq : List (String × Nat)) :
+    (quantifyWith S rows groups level ibaq).groups =
+      ((List.range groups.length).filter (fun g => !(attached rows groups g).isEmpty)).map (fun g =>
+        let c := cutoffOf rows groups level
+        let exps := experiments rows
+        let quants := retain c (attached rows groups g)
+        { ids := groups.getD g []
+          quants := quants
+          counts := peptideCounts exps c quants
+          idType := idTypes exps c quants
+          total := totalOf S (intensities exps S c quants)
+          intens := intensities exps S c quants
+          nPeps := (groups.getD g []).map (nPepsOf ibaq)
+          ibaqTotal := totalOf S (intensities exps S c quants) / (leadingN ibaq (groups.getD g []) : Nat)
+          ibaq := (intensities exps S c quants).map (· / (leadingN ibaq (groups.getD g []) : Nat))
+          tmt := if nTmt rows > 0 then tmtSums exps (nTmt rows).toNat c quants else []
+          evidenceIds := evidenceIds c quants }) := rfl
+
+/-! ## attachment -/
+
+/-- "Each quantified evidence row is attached to exactly the one reported protein group containing
+    all of its proteins (rows mapping to several groups or to none are left out)":
+    a row is among the precursors of reported group `g` iff the parser yields it and the set of
+    group positions of its proteins is exactly `{g}` — i.e. it has a protein and every protein is
+    listed by group `g` in the index -/
+theorem attach_unique (rows : List Row) (groups : List (List String)) (g : Nat) (r : Row) :
+    r ∈ attached rows groups g ↔
+      r ∈ rows ∧ prots r ≠ [] ∧ ∀ p ∈ prots r, idxOf groups p = some g := by
+  rw [mem_attached, mem_parsed, idxSet_eq_singleton]
+  tauto
+
+/-- … "the one reported protein group containing all of its proteins": when no protein is listed
+    by two reported groups, the index lookup is membership, so a row is attached to `g` iff all of
+    its proteins are members of the `g`-th reported group -/
+theorem attach_contains_all (rows : List Row) (groups : List (List String)) (g : Nat) (r : Row)
+    (hdisj : ∀ (i j : Nat) (gi gj : List String) (p : String), groups[i]? = some gi → groups[j]? = some gj → p ∈ gi → p ∈ gj → i = j) :
+    r ∈ attached rows groups g ↔
+      r ∈ rows ∧ prots r ≠ [] ∧ ∃ grp, groups[g]? = some grp ∧ ∀ p ∈ prots r, p ∈ grp := by
+  rw [attach_unique]
+  constructor
+  · rintro ⟨h1, h2, h3⟩
+    refine ⟨h1, h2, ?_⟩
+    obtain ⟨p0, hp0⟩ := List.exists_mem_of_ne_nil _ h2
+    obtain ⟨grp, hg, _⟩ := lastIdx_some _ groups g (h3 p0 hp0)
+    refine ⟨grp, hg, ?_⟩
+    intro p hp
+    obtain ⟨grp', hg', hc⟩ := lastIdx_some _ groups g (h3 p hp)
+    rw [hg] at hg'
+    cases hg'
+    simpa using hc
+  · rintro ⟨h1, h2, grp, hg, h3⟩
+    refine ⟨h1, h2, ?_⟩
+    intro p hp
+    apply lastIdx_of_unique _ groups g grp hg (by simpa using h3 p hp)
+    intro j b hb hc
+    exact hdisj j g b grp p hb hg (by simpa using hc) (h3 p hp)
+
+/-- "over all groups no evidence row is counted twice": a row is attached to at most one group,
+    and within a group the attached rows are a sub-list of the evidence rows (in file order, each
+    occurrence at most once) -/
+theorem no_row_twice (rows : List Row) (groups : List (List String)) :
+    (∀ g g' r, r ∈ attached rows groups g → r ∈ attached rows groups g' → g = g') ∧
+    (∀ g, (attached rows groups g).Sublist rows) := by
+  constructor
+  · intro g g' r h h'
+    have h1 := ((mem_attached rows groups g r).mp h).2
+    have h2 := ((mem_attached rows groups g' r).mp h').2
+    rw [h1] at h2
+    simpa using h2
+  · intro g
+    exact (List.filter_sublist).trans List.filter_sublist
+
+/-! ## identified precursors -/
+
+/-- "a precursor is used only if some PSM of the same peptide and charge in that group passes the
+    PSM-level PEP cutoff (match-between-runs rows ride along with identified precursors)":
+    a precursor survives the filter iff a row of the same group with the same peptide and charge has
+    a PEP `<=` the cutoff (so the PSM at which the running mean crosses the level is itself inside);
+    whether the surviving row is itself a match-between-runs row plays no role -/
+theorem identified_filter (c : Rat) (quants : List Row) (q : Row) :
+    q ∈ retain c quants ↔
+      q ∈ quants ∧ ∃ q' ∈ quants, q'.peptide = q.peptide ∧ q'.charge = q.charge ∧ leCut q'.pep c = true :=
+  mem_retain c quants q
+
+/-- the filter keeps file order and multiplicity -/
+theorem identified_filter_sublist (c : Rat) (quants : List Row) : (retain c quants).Sublist quants :=
+  List.filter_sublist
+
+/-! ## summed intensity, total, iBAQ -/
+
+/-- "Per group and experiment the summed intensity … equal[s] a direct recomputation from those
+    precursors": slot `e*(1+S)+k` of the flat intensity list (experiment position `e`, `k = 0` the
+    experiment's `Intensity`, `k = j+1` its SILAC channel `j`) is the sum of that channel over the
+    precursors of experiment `e` that carry an intensity (not NaN) and are match-between-runs rows or
+    within the cutoff -/
+theorem intensity_recompute (exps : List String) (S : Nat) (c : Rat) (quants : List Row) (e k : Nat)
+    (he : e < exps.length) (hk : k ≤ S) (hs : ∀ q ∈ quants, q.silac.length ≤ S) :
+    (intensities exps S c quants).getD (e * (1 + S) + k) 0 =
+      ((quants.filter (fun q => q.intensity.isSome && (isMbr q.pep || leCut q.pep c) &&
+          (expIdx exps q.experiment == some e))).map
+        (fun q => match k with
+          | 0 => q.intensity.getD 0
+          | j + 1 => q.silac.getD j 0)).sum := by
+  rw [intensities_slot exps S c quants e k he hk hs]
+  congr 1
+  cases k <;> rfl
+
+/-- "the total intensity is the sum over experiments" (of the experiments' `Intensity` slots, not of
+    the SILAC channel slots) -/
+theorem total_is_sum_of_experiments (exps : List String) (S : Nat) (c : Rat) (quants : List Row) :
+    totalOf S (intensities exps S c quants) =
+      ((List.range exps.length).map (fun e => (intensities exps S c quants).getD (e * (1 + S)) 0)).sum := by
+  unfold totalOf
+  rw [stride_eq S exps.length _ (by rw [length_intensities, Nat.add_comm])]
+  simp only [Nat.add_comm S 1]
+
+/-- "iBAQ (intensity divided by the leading protein's theoretical peptide number, at least 1)":
+    in every reported row the iBAQ columns are the intensity columns divided by
+    `max 1 n(first protein of the group)`, and the peptide numbers are looked up per member -/
+theorem ibaq_def (S : Nat) (rows : List Row) (groups : List (List String)) (level : Rat)
+    (ibaq : List (String × Nat)) :
+    ∀ o ∈ (quantifyWith S rows groups level ibaq).groups,
+      o.nPeps = o.ids.map (nPepsOf ibaq) ∧
+      o.ibaqTotal = o.total / ((max 1 (o.nPeps.headD 0) : Nat) : Rat) ∧
+      o.ibaq = o.intens.map (fun x => x / ((max 1 (o.nPeps.headD 0) : Nat) : Rat)) := by
+  intro o ho
+  rw [output_groups] at ho
+  obtain ⟨g, _, rfl⟩ := List.mem_map.mp ho
+  exact ⟨rfl, rfl, rfl⟩
+
+/-! ## counts, identification type, evidence ids -/
+
+/-- "unique-peptide counts … equal a direct recomputation": the combined count is the number of
+    distinct (modified) peptides among the used precursors; the count of experiment position `e` is the
+    number of distinct peptides among the used precursors of that experiment — peptides, not
+    precursors: two charge states or two runs of one peptide count once -/
+theorem counts_recompute (exps : List String) (c : Rat) (quants : List Row) :
+    (peptideCounts exps c quants).getD 0 0 =
+      ((quants.filter (used c)).map (·.peptide)).toFinset.card ∧
+    ∀ e, e < exps.length →
+      (peptideCounts exps c quants).getD (e + 1) 0 =
+        ((quants.filter (fun q => used c q && (expIdx exps q.experiment == some e))).map
+          (·.peptide)).toFinset.card := by
+  have key : ∀ j, j < exps.length + 1 →
+      (peptideCounts exps c quants).getD j 0 =
+        ((quants.filter (hit exps c j)).map (·.peptide)).toFinset.card := by
+    intro j hj
+    obtain ⟨s, hs, hnd, hmem⟩ := peptideSets_slot exps c quants j hj
+    unfold peptideCounts
+    rw [List.getD_eq_getElem?_getD, List.getElem?_map, hs]
+    simp only [Option.map_some, Option.getD_some]
+    rw [← List.toFinset_card_of_nodup hnd]
+    congr 1
+    ext y
+    simp only [List.mem_toFinset, hmem, List.mem_map]
+  constructor
+  · have h0 : hit exps c 0 = used c := funext fun _ => rfl
+    rw [← h0]
+    exact key 0 (by omega)
+  · intro e he
+    exact key (e + 1) (by omega)
+
+/-- "identification type … equal[s] a direct recomputation": for experiment position `e` the type
+    is "By MS/MS" if some precursor of that experiment is within the cutoff, otherwise "By matching"
+    if one is a match-between-runs row, otherwise empty -/
+theorem idtype_recompute (exps : List String) (c : Rat) (quants : List Row) (e : Nat)
+    (he : e < exps.length) :
+    (idTypes exps c quants).getD e "" =
+      if quants.any (fun q => (expIdx exps q.experiment == some e) && leCut q.pep c) then "By MS/MS"
+      else if quants.any (fun q => (expIdx exps q.experiment == some e) && isMbr q.pep) then "By matching"
+      else "" := by
+  unfold idTypes
+  rw [foldl_idStep exps c e quants _ (by simpa using he)]
+  have h0 : (List.replicate exps.length "").getD e "" = "" := by
+    rw [List.getD_eq_getElem?_getD, List.getElem?_replicate]
+    split <;> rfl
+  rw [h0]
+  simp only [idSem]
+  have : ("" == byMsms) = false := by decide
+  simp only [this, Bool.false_eq_true, if_false]
+  rfl
+
+/-- "evidence IDs equal a direct recomputation": the reported ids are exactly (with multiplicity)
+    the ids of the used precursors, in ascending order -/
+theorem evidence_ids_sorted_exact (c : Rat) (quants : List Row) :
+    (evidenceIds c quants).Pairwise (· ≤ ·) ∧
+    (evidenceIds c quants).Perm ((quants.filter (fun q => isMbr q.pep || leCut q.pep c)).map (·.id)) :=
+  ⟨sortInts_sorted _, sortInts_perm _⟩
+
+/-! ## TMT reporter sums, experiment list, PEP cutoff -/
+
+/-- (TMT channels) slot `e*(3T)+k` of the reporter columns — experiment position `e`, `k`-th of the
+    `3T` reporter columns of the evidence file — is the sum of that column over the used precursors of
+    the experiment (NaN `Intensity` plays no role here) -/
+theorem tmt_recompute (exps : List String) (T : Nat) (c : Rat) (quants : List Row) (e k : Nat)
+    (he : e < exps.length) (hk : k < 3 * T) (ht : ∀ q ∈ quants, q.tmt.length = 3 * T) :
+    (tmtSums exps T c quants).getD (e * (3 * T) + k) 0 =
+      ((quants.filter (fun q => (isMbr q.pep || leCut q.pep c) && (expIdx exps q.experiment == some e))).map
+        (fun q => q.tmt.getD k 0)).sum := by
+  unfold tmtSums
+  have hinit : ∀ v ∈ List.replicate exps.length (List.replicate (3 * T) (0 : Rat)), v.length = 3 * T := by
+    intro v hv
+    rw [(List.mem_replicate.mp hv).2]; simp
+  obtain ⟨h1, h2, h3⟩ := foldl_tmtStep exps c (3 * T) e k quants _ hinit ht (by simpa using he)
+  rw [getD_flatten (3 * T) _ e k h2 (by rw [h1]; simpa using he) hk, h3, ← sum_map_ite]
+  have h0 : ((List.replicate exps.length (List.replicate (3 * T) (0 : Rat))).getD e []).getD k 0 = 0 := by
+    have hrow : (List.replicate exps.length (List.replicate (3 * T) (0 : Rat))).getD e [] =
+        List.replicate (3 * T) 0 := by
+      rw [List.getD_eq_getElem?_getD, List.getElem?_replicate]
+      simp only [he, if_true, Option.getD_some]
+    rw [hrow, List.getD_eq_getElem?_getD, List.getElem?_replicate]
+    split <;> rfl
+  rw [h0, zero_add]
+  rfl
+
+/-- the experiment list (`experiment list order`): the experiments of the rows the parser yields —
+    also of rows that are then left out as missing or shared —, strictly increasing in code point
+    order, hence without duplicates -/
+theorem experiments_exact (rows : List Row) :
+    (experiments rows).Pairwise (· < ·) ∧
+    ∀ e, e ∈ experiments rows ↔ ∃ r ∈ rows, prots r ≠ [] ∧ r.experiment = e := by
+  constructor
+  · exact sortedSet_sorted _
+  · intro e
+    unfold experiments
+    rw [mem_sortedSet, List.mem_map]
+    constructor
+    · rintro ⟨r, hr, rfl⟩
+      exact ⟨r, ((mem_parsed rows r).mp hr).1, ((mem_parsed rows r).mp hr).2, rfl⟩
+    · rintro ⟨r, hr, hp, rfl⟩
+      exact ⟨r, (mem_parsed rows r).mpr ⟨hr, hp⟩, rfl⟩
+
+/-- the PEP cutoff of the run is the C17 cutoff (`PgFdr.C17.cutoff`, all C17 theorems apply) of the
+    PEPs of the attached rows whose protein list is not a decoy list; match-between-runs rows (NaN)
+    have no influence on it -/
+theorem cutoff_is_c17 (rows : List Row) (groups : List (List String)) (level : Rat) :
+    cutoffOf rows groups level = C17.cutoff (pepList rows groups) level := by
+  unfold cutoffOf C17.cutoff
+  rw [finites_filter_not_mbr]
+
+/-! ## conservation over the whole table -/
+
+/-- "the total intensity is the sum over experiments, and over all groups no evidence row is
+    counted twice": the sum of the `Intensity` column over all reported rows (equivalently, by
+    `total_is_sum_of_experiments`, Σ_g Σ_e intensity g e) is the sum of the intensities of the evidence
+    rows that enter some group (`rowCounted`: attached to a group, identified there, carrying an
+    intensity, MBR or within the cutoff), each taken once — nothing is lost and nothing is counted
+    twice.  Hypothesis: every row has the same SILAC columns (they come from one header). -/
+theorem conservation (rows : List Row) (groups : List (List String)) (level : Rat)
+    (ibaq : List (String × Nat)) (o : Output)
+    (hrun : quantify rows groups level ibaq = .ok o)
+    (huniform : ∀ r ∈ parsed rows, (r.silac.length : Int) = nSilac rows) :
+    (o.groups.map (·.total)).sum =
+      (((parsed rows).filter (rowCounted rows groups (cutoffOf rows groups level))).map
+        (fun r => r.intensity.getD 0)).sum := by
+  obtain ⟨S, hS, rfl⟩ := (quantify_ok rows groups level ibaq o).mp hrun
+  have hlen : ∀ r ∈ parsed rows, r.silac.length ≤ S := by
+    intro r hr
+    have h1 := huniform r hr
+    unfold silacChannels at hS
+    split at hS
+    · rename_i h3
+      have : nSilac rows = 3 := by simpa using h3
+      cases hS; omega
+    · split at hS
+      · rename_i h2
+        have : nSilac rows = 2 := by simpa using h2
+        cases hS; omega
+      · split at hS
+        · cases hS
+        · cases hS; omega
+  rw [quantifyWith_totals]
+  generalize hc : cutoffOf rows groups level = c
+  have hzero : ∀ g, (!(attached rows groups g).isEmpty) = false →
+      totalOf S (intensities (experiments rows) S c (retain c (attached rows groups g))) = 0 := by
+    intro g hg
+    have hnil : attached rows groups g = [] := by simpa using hg
+    rw [group_total S rows groups c g hlen]
+    have : (parsed rows).filter (entersGroup rows groups c g) = [] := by
+      rw [List.filter_eq_nil_iff]
+      intro r hr henters
+      have hmem : r ∈ attached rows groups g := by
+        unfold attached
+        rw [List.mem_filter]
+        simp only [entersGroup, Bool.and_eq_true] at henters
+        exact ⟨hr, henters.1.1⟩
+      rw [hnil] at hmem
+      cases hmem
+    rw [this]; rfl
+  unfold keptIdx
+  rw [sum_filter_of_zero _ _ _ hzero]
+  have hgt : (List.range groups.length).map (fun g =>
+        totalOf S (intensities (experiments rows) S c (retain c (attached rows groups g)))) =
+      (List.range groups.length).map (fun g =>
+        (((parsed rows).filter (entersGroup rows groups c g)).map (chan 0)).sum) := by
+    apply List.map_congr_left
+    intro g _
+    exact group_total S rows groups c g hlen
+  rw [hgt, sum_partition (fun g r => entersGroup rows groups c g r)
+    (fun r i j => entersGroup_unique rows groups c r i j)]
+  rfl
+
+/-! ## non-vacuity: a concrete SILAC run meeting every hypothesis above
+
+Two reported groups; `r1` (identified, E1), `r2` (match-between-runs sibling of `r1` in E2; the decoy
+protein listed with the target is dropped), `r3` shared between the groups (left out), `r5` for the
+second group — it is the PSM at which the running PEP mean crosses the level 1/100, so the cutoff is
+its PEP 1/4 and it is itself inside —, `r4` another charge state of `r1`'s peptide with a PEP above
+the cutoff (dropped by the identified-precursor filter). -/
+
+private def r1 : Row :=
+  { id := 4, peptide := "AAK", charge := 2, experiment := "E1", fraction := "-1",
+    leading := ["P1"], intensity := some 100, pep := .fin (1/1000), silac := [60, 40], tmt := [] }
+private def r2 : Row :=
+  { id := 1, peptide := "AAK", charge := 2, experiment := "E2", fraction := "-1",
+    leading := ["P2", "REV__P9"], intensity := some 50, pep := .nan, silac := [30, 20], tmt := [] }
+private def r3 : Row :=
+  { id := 2, peptide := "CCK", charge := 2, experiment := "E2", fraction := "-1",
+    leading := ["P1", "P3"], intensity := some 7, pep := .fin (1/1000), silac := [3, 4], tmt := [] }
+private def r4 : Row :=
+  { id := 3, peptide := "AAK", charge := 3, experiment := "E1", fraction := "-1",
+    leading := ["P1", "P2"], intensity := some 9, pep := .fin (1/2), silac := [5, 4], tmt := [] }
+private def r5 : Row :=
+  { id := 0, peptide := "DDK", charge := 2, experiment := "E1", fraction := "-1",
+    leading := ["P3"], intensity := some 11, pep := .fin (1/4), silac := [11, 0], tmt := [] }
+private def exRows : List Row := [r1, r2, r3, r5, r4]
+private def exGroups : List (List String) := [["P1", "P2"], ["P3"]]
+private def exIbaq : List (String × Nat) := [("P1", 3)]
+
+example : ∀ (i j : Nat) (gi gj : List String) (p : String),
+    exGroups[i]? = some gi → exGroups[j]? = some gj → p ∈ gi → p ∈ gj → i = j := by
+  intro i j gi gj p hi hj
+  match i, j with
+  | 0, 0 => intros; rfl
+  | 1, 1 => intros; rfl
+  | 0, 1 =>
+    simp only [exGroups, List.getElem?_cons_zero, List.getElem?_cons_succ, Option.some.injEq] at hi hj
+    subst hi hj; intro h1 h2; simp at h1 h2; rcases h1 with rfl | rfl <;> simp at h2
+  | 1, 0 =>
+    simp only [exGroups, List.getElem?_cons_zero, List.getElem?_cons_succ, Option.some.injEq] at hi hj
+    subst hi hj; intro h1 h2; simp at h1 h2; subst h1; simp at h2
+  | i + 2, _ => simp [exGroups] at hi
+  | _, j + 2 => simp [exGroups] at hj
+
+/-- the PEP cutoff of the example run (the `mergeSort` inside `C17.cutoff` does not reduce in the
+    kernel, hence the detour through `sortAsc_of_sorted`) -/
+private theorem ex_cutoff : cutoffOf exRows exGroups (1/100) = 1/4 := by
+  have h : C17.finites ((pepList exRows exGroups).filter (fun p => !isMbr p)) = [1/1000, 1/4, 1/2] := by
+    decide +kernel
+  unfold cutoffOf C17.cutoff
+  rw [h, C17.sortAsc_of_sorted _ (by decide +kernel)]
+  decide +kernel
+
+private theorem ex_groups : (quantifyWith 2 exRows exGroups (1/100) exIbaq).groups =
+    [0, 1].map (fun g => groupOut ["E1", "E2"] 2 0 (1/4) exIbaq (exGroups.getD g [])
+      (retain (1/4) (attached exRows exGroups g))) := by
+  show (keptIdx exRows exGroups).map (fun g => groupOut (experiments exRows) 2 (nTmt exRows)
+    (cutoffOf exRows exGroups (1/100)) exIbaq (exGroups.getD g [])
+    (retain (cutoffOf exRows exGroups (1/100)) (attached exRows exGroups g))) = _
+  rw [ex_cutoff]
+  have h1 : keptIdx exRows exGroups = [0, 1] := by decide +kernel
+  have h2 : experiments exRows = ["E1", "E2"] := by decide +kernel
+  have h3 : nTmt exRows = 0 := by decide +kernel
+  rw [h1, h2, h3]
+
+example : (List.range 2).map (fun g => (attached exRows exGroups g).map (·.id)) = [[4, 1, 3], [0]] := by
+  decide +kernel
+example : ((quantifyWith 2 exRows exGroups (1/100) exIbaq).groups.map (·.quants)).map (·.map (·.id)) =
+    [[4, 1], [0]] := by rw [ex_groups]; decide +kernel
+example : (quantifyWith 2 exRows exGroups (1/100) exIbaq).groups.map (·.intens) =
+    [[100, 60, 40, 50, 30, 20], [11, 11, 0, 0, 0, 0]] := by rw [ex_groups]; decide +kernel
+example : (quantifyWith 2 exRows exGroups (1/100) exIbaq).groups.map (·.ibaqTotal) = [50, 11] := by
+  rw [ex_groups]; decide +kernel
+example : (quantifyWith 2 exRows exGroups (1/100) exIbaq).groups.map (·.idType) =
+    [["By MS/MS", "By matching"], ["By MS/MS", ""]] := by rw [ex_groups]; decide +kernel
+example : (quantifyWith 2 exRows exGroups (1/100) exIbaq).groups.map (·.evidenceIds) = [[1, 4], [0]] := by
+  rw [ex_groups]; decide +kernel
+example : (quantifyWith 2 exRows exGroups (1/100) exIbaq).groups.map (·.counts) = [[1, 1, 1], [1, 1, 0]] := by
+  rw [ex_groups]; decide +kernel
+example : ∃ o, quantify exRows exGroups (1/100) exIbaq = .ok o := ⟨_, rfl⟩
+example : ∀ r ∈ parsed exRows, (r.silac.length : Int) = nSilac exRows := by decide +kernel
+example : ∀ q ∈ exRows, q.silac.length ≤ 2 := by decide +kernel
+example : (experiments exRows).length = 2 := by decide +kernel
+example : ((parsed exRows).filter (rowCounted exRows exGroups (cutoffOf exRows exGroups (1/100)))).map (·.id) =
+    [4, 1, 0] := by rw [ex_cutoff]; decide +kernel
+
+
+/-- a TMT precursor list meeting the hypotheses of `tmt_recompute` (one channel, three reporter columns) -/
+private def t1 : Row :=
+  { id := 0, peptide := "AAK", charge := 2, experiment := "E1", fraction := "-1",
+    leading := ["P1"], intensity := none, pep := .fin (1/1000), silac := [], tmt := [7, 5, 1] }
+private def t2 : Row :=
+  { id := 1, peptide := "AAK", charge := 2, experiment := "E1", fraction := "-1",
+    leading := ["P1"], intensity := some 3, pep := .nan, silac := [], tmt := [2, 1, 1] }
+example : ∀ q ∈ [t1, t2], q.tmt.length = 3 * 1 := by decide +kernel
+example : tmtSums ["E1"] 1 (1/100) [t1, t2] = [9, 6, 2] := by decide +kernel
 
 end PgFdr.C12
